@@ -512,3 +512,84 @@ pub fn replay_verdict_file(path: &str) -> J {
     }
     json!({"behaviours": n, "distinct_nontrivial": n, "mismatches": mismatches, "samples": samples})
 }
+
+/// Replay MC_Sched behaviours: the schedule is executed on real iterators over one TestCase, each with its own driver.
+pub fn replay_sched_file(path: &str) -> J {
+    let text = std::fs::read_to_string(path).expect("read behaviours");
+    let mut n = 0usize;
+    let mut mismatches: Vec<J> = vec![];
+    let mut samples = vec![];
+    for (i, line) in text.lines().enumerate() {
+        if line.trim().is_empty() {
+            continue;
+        }
+        let b: J = serde_json::from_str(line).expect("behaviour JSON");
+        n += 1;
+        let header: Vec<String> = b["header"].as_array().unwrap().iter().map(|h| h.as_str().unwrap().to_string()).collect();
+        let supplied: Vec<Sig> = b["signals"].as_array().unwrap().iter().map(Sig::from_spec).collect();
+        let mut next_id = 1;
+        let prog = stmts_from_spec(&b["prog"], &mut next_id, &mut || false);
+        let printed = print_test(&header, &prog, &Layout::canonical());
+        *crate::WATCH_TEXT.lock().unwrap() = printed.text.clone();
+        let Loaded::Ok(tc) = load(&printed.text, &supplied) else {
+            mismatches.push(json!({"behaviour": i + 1, "code": "load", "step": 0, "text": printed.text, "expected": "ok", "observed": "rejected", "line": line}));
+            continue;
+        };
+        let table: Vec<Signal> = supplied.iter().filter(|s| s.is_out()).map(|s| s.to_real()).collect();
+        let scripts = b["scripts"].as_array().unwrap();
+        let mut drivers: Vec<DrvW> = vec![];
+        for sc in scripts {
+            let script = answers(sc, &table);
+            let policy: Policy = Box::new(move |idx, _k, _i| script.get(idx).cloned().unwrap_or(Answer::Err(999_999)));
+            let (core, _log) = Core::new(table.clone(), policy);
+            drivers.push(DrvW(core));
+        }
+        let mut its: Vec<_> = drivers.iter_mut().map(|d| guarded(|| tc.try_iter(d)).ok().and_then(|r| r.ok())).collect();
+        let mut pos = vec![0usize; its.len()];
+        let sched: Vec<usize> = b["sched"].as_array().unwrap().iter().map(|x| x.as_u64().unwrap() as usize - 1).collect();
+        if samples.len() < 2 && sched.len() >= 6 {
+            samples.push(json!({"text": printed.text, "schedule": b["sched"]}));
+        }
+        let mut bad = None;
+        for (step, &j) in sched.iter().enumerate() {
+            let want = &b["hists"][j][pos[j]];
+            pos[j] += 1;
+            let Some(it) = its[j].as_mut() else {
+                bad = Some(("ctor.res", step, want.clone(), json!("constructor failed")));
+                break;
+            };
+            let got = guarded(|| it.next());
+            let obs = match &got {
+                Err(p) => json!({"k": "panic", "msg": p}),
+                Ok(None) => json!({"k": "none"}),
+                Ok(Some(Err(IterationError::Driver(_)))) => json!({"k": "err", "class": "driver"}),
+                Ok(Some(Err(IterationError::Runtime(_)))) => json!({"k": "err", "class": "runtime"}),
+                Ok(Some(Ok(row))) => row_to_spec(row),
+            };
+            if obs["k"] != want["k"] {
+                bad = Some((if obs["k"] == "panic" { "panic" } else { "sched.item" }, step, want.clone(), obs));
+                break;
+            }
+            if want["k"] == "row" {
+                let same = obs["line"].as_u64() == printed.line_of.get(&(want["line"].as_u64().unwrap() as usize)).map(|l| *l as u64)
+                    && sv_list(&obs["inputs"]) == sv_list(&want["inputs"])
+                    && obs["outputs"].as_array().unwrap().len() == want["outputs"].as_array().unwrap().len()
+                    && obs["outputs"].as_array().unwrap().iter().zip(want["outputs"].as_array().unwrap()).all(|(o, w)| o["s"] == w["s"] && Val::from_spec(&o["out"]) == Val::from_spec(&w["out"]) && Val::from_spec(&o["exp"]) == Val::from_spec(&w["exp"]));
+                let mut wv: Vec<(String, i64)> = want["vars"].as_array().unwrap().iter().map(|p| (p[0].as_str().unwrap().to_string(), from_limbs(&p[1]))).collect();
+                wv.sort();
+                let mut gv: Vec<(String, i64)> = it.vars().into_iter().collect();
+                gv.sort();
+                if !same || wv != gv {
+                    bad = Some(("sched.item", step, want.clone(), obs));
+                    break;
+                }
+            }
+        }
+        if let Some((code, step, exp, obs)) = bad {
+            if mismatches.len() < 200 {
+                mismatches.push(json!({"behaviour": i + 1, "code": code, "step": step, "text": printed.text, "expected": exp, "observed": obs, "line": line}));
+            }
+        }
+    }
+    json!({"behaviours": n, "distinct_nontrivial": n, "mismatches": mismatches, "samples": samples})
+}
